@@ -329,7 +329,13 @@ string JSON::serialize(uint32_t options, size_t indent_level) const {
     case 3: { // double
       string ret = string_printf("%g", this->as_float());
       if (ret.find('.') == string::npos) {
-        return ret + ".0";
+        // Keep the value recognizable as a float. If %g chose exponent form
+        // (e.g. 1e+20), the suffix must go before the exponent, not after it.
+        size_t exp_offset = ret.find('e');
+        if (exp_offset == string::npos) {
+          return ret + ".0";
+        }
+        ret.insert(exp_offset, ".0");
       }
       return ret;
     }
